@@ -666,3 +666,215 @@ Proof.
 Qed.
 
 End Simp.
+
+(* ------------------------------------------------------------------ *)
+(** ** The invariant of the DFS *)
+
+Section DFS.
+Variable c : circuit.
+Notation n := (n_inputs c).
+
+Definition finished (m : lit) : Prop := m <> UNDEF /\ m <> DISCOVERED.
+
+Definition child_ok (order : list nat) (l : lit) : Prop :=
+  match latom l with
+  | AGate h => In h order
+  | AIn i => i < n
+  | AUndef => False
+  | AConst => True
+  end.
+
+(** [order]: the finished gates, most recently finished first *)
+Record Inv (st : state) (order : list nat) : Prop := {
+  inv_len : length (gmap st) = num_gates c;
+  inv_nf : NF (mkCircuit n (ngates st));
+  inv_nodup : NoDup order;
+  inv_fin : forall g, In g order <-> exists m, nth_error (gmap st) g = Some m /\ finished m;
+  inv_link : forall g m, nth_error (gmap st) g = Some m -> finished m ->
+                         Linked c (length order) (ngates st) g m;
+  inv_closed : forall g gt l, In g order -> nth_error (gates c) g = Some gt -> In l (gins gt) ->
+                              child_ok order l;
+  inv_before : forall pre g post gt l h, order = pre ++ g :: post ->
+                 nth_error (gates c) g = Some gt -> In l (gins gt) -> latom l = AGate h -> In h post
+}.
+
+(** what a successful call may change *)
+Record Ext (st : state) (order : list nat) (st' : state) (order' : list nat) : Prop := {
+  ext_order : exists pre, order' = pre ++ order;
+  ext_disc : forall g, nth_error (gmap st') g = Some DISCOVERED <-> nth_error (gmap st) g = Some DISCOVERED
+}.
+
+Lemma Ext_refl : forall st order, Ext st order st order.
+Proof. intros. constructor; [exists []; reflexivity | tauto]. Qed.
+
+Lemma Ext_trans : forall s1 o1 s2 o2 s3 o3, Ext s1 o1 s2 o2 -> Ext s2 o2 s3 o3 -> Ext s1 o1 s3 o3.
+Proof.
+  intros s1 o1 s2 o2 s3 o3 [[p1 E1] D1] [[p2 E2] D2]. constructor.
+  - exists (p2 ++ p1). subst. rewrite app_assoc. reflexivity.
+  - intro g. rewrite D2. apply D1.
+Qed.
+
+Lemma Ext_In : forall st order st' order' g, Ext st order st' order' -> In g order -> In g order'.
+Proof. intros st order st' order' g [[p E] _] H. subst. apply in_or_app. right. exact H. Qed.
+
+Lemma Linked_weaken : forall d gs g m d' ex, NF (mkCircuit n gs) ->
+  Linked c d gs g m -> d <= d' -> Linked c d' (gs ++ ex) g m.
+Proof.
+  intros d gs g m d' ex HNF [Hv Hs] Hle. pose proof (NF_Topo _ HNF) as HT. simpl in HT. split.
+  - eapply LitValid_mono; [exact Hv | rewrite app_length; lia].
+  - intros a. destruct (Hs a) as [b [H1 H2]]. exists b. split.
+    + eapply eval_lit_mono; eauto.
+    + rewrite eval_extend; assumption.
+Qed.
+
+Lemma finished_dec : forall m, {m = UNDEF} + {m = DISCOVERED} + {finished m}.
+Proof.
+  intros m. destruct (lit_eq_dec m UNDEF) as [E|E]; [left; left; exact E|].
+  destruct (lit_eq_dec m DISCOVERED) as [E'|E']; [left; right; exact E' | right; split; assumption].
+Qed.
+
+Lemma Inv_set_discovered : forall st order idx, Inv st order ->
+  nth_error (gmap st) idx = Some UNDEF -> Inv (set_map st idx DISCOVERED) order.
+Proof.
+  intros st order idx I Hidx.
+  assert (Hlt : idx < length (gmap st)) by (apply nth_error_Some; congruence).
+  assert (Hnth : forall g, g <> idx -> nth_error (gmap (set_map st idx DISCOVERED)) g = nth_error (gmap st) g).
+  { intros g Hg. simpl. apply nth_error_set_nth_neq. congruence. }
+  assert (Hidx' : nth_error (gmap (set_map st idx DISCOVERED)) idx = Some DISCOVERED).
+  { simpl. apply nth_error_set_nth_eq. exact Hlt. }
+  destruct I as [I1 I2 I3 I4 I5 I6 I7]. constructor; simpl ngates; auto.
+  - simpl. rewrite length_set_nth. exact I1.
+  - intro g. rewrite I4. destruct (Nat.eq_dec g idx) as [E|E].
+    + subst g. rewrite Hidx, Hidx'. split; intros [m [Hm [F1 F2]]]; inversion Hm; subst; congruence.
+    + rewrite (Hnth g E). tauto.
+  - intros g m Hm Hf. destruct (Nat.eq_dec g idx) as [E|E].
+    + subst g. rewrite Hidx' in Hm. inversion Hm. subst. destruct Hf. congruence.
+    + rewrite (Hnth g E) in Hm. apply I5; assumption.
+Qed.
+
+Definition RecSpec (rec : nat -> state -> res state) : Prop :=
+  forall idx st order st', Inv st order -> rec idx st = Ok st' ->
+    exists order', Inv st' order' /\ Ext st order st' order' /\ In idx order'.
+
+Lemma visit_inputs_spec : forall rec, RecSpec rec ->
+  forall ls st order st', Inv st order -> visit_inputs c rec ls st = Ok st' ->
+    exists order', Inv st' order' /\ Ext st order st' order' /\
+                   forall l, In l ls -> child_ok order' l.
+Proof.
+  intros rec HR. induction ls as [|l r IH]; intros st order st' I H; simpl in H.
+  - inversion H. subst. exists order. split; [exact I|]. split; [apply Ext_refl | intros l []].
+  - destruct l as [s at_]. simpl in H. destruct at_ as [ | i | h | ].
+    + destruct (IH _ _ _ I H) as [o' [I' [E' C']]]. exists o'. split; [exact I'|]. split; [exact E'|].
+      intros l [Hl|Hl]; [subst; unfold child_ok; simpl; trivial | auto].
+    + destruct (Nat.leb n i) eqn:Ei; [discriminate|]. apply Nat.leb_gt in Ei.
+      destruct (IH _ _ _ I H) as [o' [I' [E' C']]]. exists o'. split; [exact I'|]. split; [exact E'|].
+      intros l [Hl|Hl]; [subst; exact Ei | auto].
+    + destruct (rec h st) as [st1| | |] eqn:Er; try discriminate.
+      destruct (HR _ _ _ _ I Er) as [o1 [I1 [E1 H1]]].
+      destruct (IH _ _ _ I1 H) as [o' [I' [E' C']]]. exists o'. split; [exact I'|].
+      split; [eapply Ext_trans; eauto|].
+      intros l [Hl|Hl]; [subst; unfold child_ok; simpl; eapply Ext_In; eauto | auto].
+    + discriminate.
+Qed.
+
+Lemma inner_spec : forall f, RecSpec (inner c f).
+Proof.
+  induction f as [|f IH]; intros idx st order st' I H; simpl in H; [discriminate|].
+  destruct (nth_error (gmap st) idx) as [m|] eqn:Em; [|discriminate].
+  destruct (lit_eqb m DISCOVERED) eqn:Ed; [discriminate|]. apply lit_eqb_neq in Ed.
+  destruct (lit_eqb m UNDEF) eqn:Eu; simpl in H.
+  2:{ (* finished *)
+    apply lit_eqb_neq in Eu. inversion H. subst st'. exists order. split; [exact I|].
+    split; [apply Ext_refl|]. apply (inv_fin _ _ I). exists m. split; [exact Em | split; assumption]. }
+  apply lit_eqb_eq in Eu. subst m.
+  destruct (nth_error (gates c) idx) as [gt|] eqn:Eg; [|discriminate].
+  assert (Hlt : idx < length (gmap st)) by (apply nth_error_Some; congruence).
+  pose proof (Inv_set_discovered st order idx I Em) as I0.
+  destruct (visit_inputs c (inner c f) (gins gt) (set_map st idx DISCOVERED)) as [st1| | |] eqn:Ev;
+    try discriminate.
+  destruct (visit_inputs_spec _ IH _ _ _ _ I0 Ev) as [o1 [I1 [E1 C1]]].
+  (* the current gate is still DISCOVERED, hence not in [o1] *)
+  assert (Hd1 : nth_error (gmap st1) idx = Some DISCOVERED).
+  { apply (ext_disc _ _ _ _ E1). simpl. apply nth_error_set_nth_eq. exact Hlt. }
+  assert (Hnot : ~ In idx o1).
+  { intro Hin. apply (inv_fin _ _ I1) in Hin. destruct Hin as [m [Hm [_ F]]]. congruence. }
+  destruct st1 as [gm1 gs1]. simpl in *.
+  assert (Hok : InputsOk c (length o1) gs1 gm1 (gins gt)).
+  { intros l Hl. specialize (C1 l Hl). unfold child_ok in C1. destruct (latom l) eqn:El; auto.
+    apply (inv_fin _ _ I1) in C1. destruct C1 as [m [Hm F]]. exists m. split; [exact Hm|].
+    apply (inv_link _ _ I1); assumption. }
+  destruct (finish_sound c (length o1) gs1 gm1 idx gt (inv_nf _ _ I1) Eg Hok)
+    as [m' [gs' [Hfin [[ex Hex] [HNF' HL']]]]].
+  rewrite Hfin in H. inversion H. subst st'. clear H.
+  assert (Hlen1 : length gm1 = num_gates c) by exact (inv_len _ _ I1).
+  assert (Hlt1 : idx < length gm1).
+  { rewrite Hlen1. rewrite <- (inv_len _ _ I). exact Hlt. }
+  assert (Hf' : finished m') by (destruct HL' as [Hv _]; eapply LitValid_not_undef; exact Hv).
+  exists (idx :: o1). split; [|split].
+  - constructor; simpl.
+    + rewrite length_set_nth. exact Hlen1.
+    + exact HNF'.
+    + constructor; [exact Hnot | exact (inv_nodup _ _ I1)].
+    + intro g. destruct (Nat.eq_dec g idx) as [E|E].
+      * subst g. rewrite nth_error_set_nth_eq by exact Hlt1. split; [|auto].
+        intros _. exists m'. split; [reflexivity | exact Hf'].
+      * rewrite nth_error_set_nth_neq by congruence. rewrite <- (inv_fin _ _ I1 g). simpl.
+        split; [intros [H|H]; [congruence | exact H] | auto].
+    + intros g m Hm Hf. destruct (Nat.eq_dec g idx) as [E|E].
+      * subst g. rewrite nth_error_set_nth_eq in Hm by exact Hlt1. inversion Hm. subst m. exact HL'.
+      * rewrite nth_error_set_nth_neq in Hm by congruence. subst gs'.
+        apply (Linked_weaken (length o1)); [exact (inv_nf _ _ I1) | apply (inv_link _ _ I1); assumption | lia].
+    + intros g gt0 l [Hg|Hg] Hgt0 Hl.
+      * subst g. rewrite Eg in Hgt0. inversion Hgt0. subst gt0. specialize (C1 l Hl).
+        unfold child_ok in *. destruct (latom l); auto. right. exact C1.
+      * pose proof (inv_closed _ _ I1 g gt0 l Hg Hgt0 Hl) as Hc.
+        unfold child_ok in *. destruct (latom l); auto. right. exact Hc.
+    + intros pre g post gt0 l h Ho Hgt0 Hl Hh. destruct pre as [|p pre]; simpl in Ho.
+      * inversion Ho. subst g post. rewrite Eg in Hgt0. inversion Hgt0. subst gt0.
+        specialize (C1 l Hl). unfold child_ok in C1. rewrite Hh in C1. exact C1.
+      * inversion Ho. subst p. eapply (inv_before _ _ I1); eauto.
+  - constructor.
+    + destruct (ext_order _ _ _ _ E1) as [p Hp]. exists (idx :: p). subst o1. reflexivity.
+    + intro g. simpl. destruct (Nat.eq_dec g idx) as [E|E].
+      * subst g. rewrite nth_error_set_nth_eq by exact Hlt1. rewrite Em. destruct Hf' as [_ F].
+        split; intro Hx; inversion Hx; congruence.
+      * rewrite nth_error_set_nth_neq by congruence. rewrite (ext_disc _ _ _ _ E1 g). simpl.
+        rewrite nth_error_set_nth_neq by congruence. tauto.
+  - left. reflexivity.
+Qed.
+
+Lemma simplify_roots_spec : forall f roots st order st', Inv st order ->
+  simplify_roots c f roots st = Ok st' ->
+  exists order', Inv st' order' /\ Ext st order st' order' /\
+                 forall r g, In r roots -> latom r = AGate g -> In g order'.
+Proof.
+  intros f. induction roots as [|r rs IH]; intros st order st' I H; simpl in H.
+  - inversion H. subst. exists order. split; [exact I|]. split; [apply Ext_refl|]. intros r g [].
+  - unfold get_gate_no in H. destruct (latom r) as [ | i | g0 | ] eqn:Er.
+    1,2,4: destruct (IH _ _ _ I H) as [o' [I' [E' R']]]; exists o'; split; [exact I'|]; split; [exact E'|];
+           intros r' g [Hr|Hr] Hg; [subst; congruence | eauto].
+    destruct (inner c f g0 st) as [st1| | |] eqn:Ei; try discriminate.
+    destruct (inner_spec f _ _ _ _ I Ei) as [o1 [I1 [E1 H1]]].
+    destruct (IH _ _ _ I1 H) as [o' [I' [E' R']]]. exists o'. split; [exact I'|].
+    split; [eapply Ext_trans; eauto|].
+    intros r' g [Hr|Hr] Hg.
+    + subst r'. rewrite Er in Hg. inversion Hg. subst. eapply Ext_In; eauto.
+    + eauto.
+Qed.
+
+Lemma Inv_init : Inv (mkState (repeat UNDEF (num_gates c)) []) [].
+Proof.
+  constructor; simpl.
+  - apply repeat_length.
+  - constructor; simpl.
+    + intros j g H. destruct j; discriminate.
+    + intros i j g h _ H. destruct i; discriminate.
+  - constructor.
+  - intro g. split; [intros []|]. intros [m [Hm [F _]]].
+    apply nth_error_In in Hm. apply repeat_spec in Hm. contradiction.
+  - intros g m Hm [F _]. apply nth_error_In in Hm. apply repeat_spec in Hm. contradiction.
+  - intros g gt l [].
+  - intros pre g post gt l h H. destruct pre; discriminate.
+Qed.
+
+End DFS.
